@@ -74,6 +74,34 @@ class Idx:
     def __init__(self, n, at, tag):
         self.n, self.at, self.tag = n, at, tag
 
+    def sym_len(self):
+        return self.n
+
+    def numpy(self):
+        return self
+
+    def _pieces(self, size, count, what):
+        """consecutive pieces of `size` entries (the last one shorter), `count` of them"""
+        me = self
+        return A.GhostSeq(count, lambda j: Idx(A.sb_min(size, me.n - j * size), lambda i, j=j: me.at(j * size + i), "%s.%s[%s]" % (me.tag, what, j)), what)
+
+    def split(self, size, dim=0):
+        # torch.split: pieces of exactly `size` entries, the last one with the remainder
+        return self._pieces(size, (self.n + size - 1) // size, "split")
+
+    def chunk(self, chunks, dim=0):
+        # torch.chunk: pieces of ceil(n / chunks) entries - possibly FEWER than `chunks` pieces
+        size = (self.n + chunks - 1) // chunks
+        return self._pieces(size, (self.n + size - 1) // size, "chunk")
+
+    def __getitem__(self, idx):
+        if isinstance(idx, slice) and idx.step is None:
+            a = 0 if idx.start is None else idx.start
+            b = self.n if idx.stop is None else idx.stop
+            b2 = A.sb_min(b, self.n)
+            return Idx(ITE(b2 > a, b2 - a, 0), lambda i: self.at(a + i), "%s[%s:%s]" % (self.tag, a, b))
+        raise A.Unmodelled("index tensor indexed by %r" % (type(idx),))
+
 
 def _second_fit(ctx, cfg):
     """History: fit (empty epoch range) then fit again on the SAME state object with the caller's SAME bases object but
